@@ -34,7 +34,7 @@ def fj(sets=None, flavour="O2", weight=1.0, tiers=("quick", "thorough")):
 
 SYNC_SHRINK = {"mode": 0, "span": 1, "nused": 1, "nops": 1, "dtor_pm": 1000, "set_pm": 1000, "null_pm": 0, "exitmode": 0, "nworkers": 1, "yield_pm": 0, "parent_first": 0, "nthreads": 1, "nacq": 1, "nmutex": 1, "try_pm": 0, "timed_pm": 0,
                "cs_points": 0, "helper_pm": 0, "np": 1, "nc": 1, "cap": 1, "k": 1, "nwaiters": 1, "rounds": 1, "n": 1,
-               "racer": -1, "ndeccers": 1, "late": 0, "items": 1, "pairs": 1, "readers": 0, "ncallers": 1, "nctl": 1, "ncycles": 1, "maxw": 1, "race": 0, "ncalls": 1, "nsib": 0, "hold": 0, "various": 0, "with_results": 0, "with_ids": 0, "with_attrs": 0, "nested": 0, "ntasks": 1, "len": 0, "step": 1, "form": 0, "grain": 1, "first": 0, "arrwords": 32}
+               "racer": -1, "ndeccers": 1, "late": 0, "items": 1, "pairs": 1, "readers": 0, "ncallers": 1, "nctl": 1, "signal_outside": 0, "ncycles": 1, "maxw": 1, "race": 0, "ncalls": 1, "nsib": 0, "hold": 0, "various": 0, "with_results": 0, "with_ids": 0, "with_attrs": 0, "nested": 0, "ntasks": 1, "len": 0, "step": 1, "form": 0, "grain": 1, "first": 0, "arrwords": 32}
 
 def sy(cls, sets=None, flavour="O2", weight=1.0, tiers=("quick", "thorough")):
     return {"bin": "mvh", "cls": cls, "sets": sets or {}, "flavour": flavour, "weight": weight, "tiers": tiers, "shrink": SYNC_SHRINK}
@@ -53,11 +53,17 @@ PROPS = {
         "assumptions": ["generated fork-join programs are determinate: one joiner per thread, values fixed by the plan"],
     },
     "C02": {
-        "jobs": [fj({"stealfn": 1, "reap_mask": 1}, weight=2), fj({"stealfn": 2, "reap_mask": 1}, weight=2),
+        "jobs": [{"bin": "wsq_tso", "cls": "wsq", "sets": {}, "flavour": "O2", "weight": 5, "chunk": 20000,
+                  "shrink": {"nthieves": 1, "cap": 4, "prefill": 0, "nops": 1, "sb_depth": 0, "start_pos": 0, "passers": 0}},
+                 {"bin": "wsq_tso", "cls": "wsq", "sets": {"sb_depth": 0}, "flavour": "O2", "weight": 1, "chunk": 20000},
+                 fj({"stealfn": 1, "reap_mask": 1}, weight=2), fj({"stealfn": 2, "reap_mask": 1}, weight=2),
                  fj({"stealfn": 3, "reap_mask": 1}, weight=2), fj({"stealfn": 0, "yield_pm": 1000, "reap_mask": 3}, weight=2),
                  fj({"reap_mask": 1}, flavour="asan", weight=1)],
         "relevant_probes": ["p_pop_slow", "p_pop_reset", "p_take_rollback", "p_recentre_down", "p_recentre_up", "p_steal_hit"],
-        "assumptions": ["whole-library part only explores sequentially consistent interleavings; x86-TSO is covered by the wsq_tso unit harness"],
+        "assumptions": ["whole-library part only explores sequentially consistent interleavings; x86-TSO is covered by the wsq_tso unit harness",
+                        "wsq_tso: the spin lock (CAS + full fence; unlock = full fence + plain store) and the fences (xchg = full fence, wbarrier = compiler barrier) are modelled; the deque algorithm text is the real src/myth_wsqueue_func.h"],
+        "components": {"real": "wsq_tso: the unmodified text of src/myth_wsqueue_func.h (push/pop/take/peek/put/trypass, re-centring); whole-library jobs: all of /repo/src",
+                       "stubbed": "wsq_tso: spin lock, fences, memory (store buffers) and the scheduler; whole-library jobs: worker OS threads (coroutines), start-up barrier, RNG, clock"},
     },
     "C12": {
         "jobs": [fj({"stack_mode": 1, "canary": 1, "poison": 1, "attr_pm": 1000}, weight=4), fj({"canary": 1, "poison": 1}, weight=2),
